@@ -214,6 +214,12 @@ Loop:
 			case codec.MovedOrAsk:
 				addr, slot := r.parseMovedOrAsk()
 				el.eventHandler.OnMoved(addr, slot, s, r)
+				if r.Error.NotNil() {
+					// the request could not be sent to the node named by the redirection
+					if c := el.failFrag(r, r.Error); c != nil {
+						el.flushClient(c)
+					}
+				}
 				continue
 
 			// The current message has been processed, continue to process the next message
@@ -310,6 +316,46 @@ func (el *eventloop) flushClient(c *conn) {
 	}
 }
 
+// failFrag completes the request the fragment belongs to with an error,
+// it returns the client connection whose queue should be flushed.
+func (el *eventloop) failFrag(f *Frag, e codec.Error) *conn {
+	if f.Owner == nil || f.Peer == nil || f.Done || f.Peer.Done {
+		return nil
+	}
+	msg := f.Peer
+	msg.Error = e
+	msg.FragDoneNumber = len(msg.Body)
+	msg.RspBody = append(msg.RspBody[:0], e.Bytes()...)
+	msg.Done = true
+	for _, v := range msg.Body {
+		v.Done = true
+	}
+	if c := f.Owner.(*conn); c.opened {
+		return c
+	}
+	return nil
+}
+
+// failPending answers with an error every request that is still waiting for the closed redis connection,
+// whether it has been written to redis or not.
+func (el *eventloop) failPending(s *conn) {
+	var owners []*conn
+	for _, q := range []*FragQueue{s.inFragQueue, s.outFragQueue} {
+		if q == nil {
+			continue
+		}
+		for f := q.head; f != nil; f = f.prev {
+			deleteFromTimeoutQueue(f)
+			if c := el.failFrag(f, codec.ErrUnKnownProxyPoolConnError); c != nil {
+				owners = append(owners, c)
+			}
+		}
+	}
+	for _, c := range owners {
+		el.flushClient(c)
+	}
+}
+
 const iovMax = 1024
 
 func (el *eventloop) write(c *conn) error {
@@ -391,6 +437,7 @@ func (el *eventloop) closeConn(c *conn, err error, closeType ConnCloseType) (rer
 			GlobalStats.ClientConnectionsClientErr.WithLabelValues().Inc()
 		}
 	case ConnServer:
+		el.failPending(c)
 		el.eventHandler.OnSClosed(c, err)
 		el.addSConn(-1)
 		switch closeType {
